@@ -99,6 +99,7 @@ func (e *Exec) step(fr *frame, st *State, in ssa.Instruction, b *ssa.BasicBlock)
 			}
 		default:
 			e.store(st, p, e.ti.zero(et))
+			e.initGhosts(st, x.Type(), ref)
 		}
 		fr.vals[x] = p
 		return true
@@ -900,4 +901,40 @@ func (e *Exec) recv(fr *frame, st *State, x *ssa.UnOp) bool {
 func (e *Exec) selectInstr(fr *frame, st *State, x *ssa.Select) bool {
 	e.unsupported("select at %s", e.pos(x.Pos()))
 	return true
+}
+
+// initGhosts zero-initialises the ghost state attached to a freshly allocated object.
+func (e *Exec) initGhosts(st *State, ptrType types.Type, ref Term) {
+	if e.ghostByType == nil {
+		e.ghostByType = map[string][]*ssa.Function{}
+		for _, pk := range e.w.Pkgs {
+			if pk.SSA == nil {
+				continue
+			}
+			for name, m := range pk.SSA.Members {
+				fn, ok := m.(*ssa.Function)
+				if !ok || !strings.HasPrefix(name, "ghost_") || fn.Signature.Params().Len() != 1 {
+					continue
+				}
+				k := fn.Signature.Params().At(0).Type().String()
+				dup := false
+				for _, o := range e.ghostByType[k] {
+					if o.Name() == name {
+						dup = true
+					}
+				}
+				if !dup {
+					e.ghostByType[k] = append(e.ghostByType[k], fn)
+				}
+			}
+		}
+	}
+	for _, fn := range e.ghostByType[ptrType.String()] {
+		rt := fn.Signature.Results().At(0).Type()
+		rs := e.ti.sortOf(rt)
+		e.ghostSorts[fn.Name()] = rs
+		name := "G." + fn.Name()
+		arr := e.heapComp(st, name, SInt, arraySort(SInt, rs))
+		e.setHeap(st, name, tStore(arr, ref, e.ti.zero(rt)))
+	}
 }
